@@ -239,7 +239,7 @@ def check_store_fee_addonly(ctx, model, crate):
         v = model.view(q)
         for b, t in v.iter_calls():
             n = mname(t)
-            if re.search(r"(<cosmwasm_std::Uint128 as std::ops::Add>::add|cosmwasm_std::Uint128::checked_add)$", n):
+            if re.search(r"(<cosmwasm_std::Uint128 as std::ops::Add>::add|cosmwasm_std::Uint128::checked_add|<cosmwasm_std::Uint128 as std::ops::AddAssign>::add_assign)$", n):
                 a0 = v.origins_of_operand(t["args"][0], at=v.at_term(b))
                 a1 = v.origins_of_operand(t["args"][1], at=v.at_term(b))
                 found = True
